@@ -126,6 +126,55 @@ def _object_name_rule() -> int:
     return lims[0]
 
 
+def _find_def(tree, scope):
+    node = tree
+    for name in scope:
+        nxt = [n for n in ast.walk(node) if isinstance(n, (ast.ClassDef, ast.FunctionDef)) and n.name == name]
+        if len(nxt) != 1:
+            raise ValueError(f"cannot find unique {'.'.join(scope)}")
+        node = nxt[0]
+    return node
+
+
+def _exception_structure() -> dict:
+    """Which exceptions the responder path handles and raises, read from the source: the model's `handleRead`
+    (discardedBad / escaped) and theorem `escape_classes` are about exactly this structure."""
+    def names(t):
+        if t is None:
+            return ["<bare>"]
+        if isinstance(t, ast.Tuple):
+            return [ast.unparse(e) for e in t.elts]
+        return [ast.unparse(t)]
+    mt = ast.parse((core.REPO / "qmi/core/messaging.py").read_text())
+    out = {}
+    for fn in ("_handle_read", "_handle_context_info_request_packet", "_handle_kill_request_packet"):
+        node = _find_def(mt, ["_UdpResponder", fn])
+        hs = []
+        for t in ast.walk(node):
+            if isinstance(t, ast.Try):
+                calls = sorted({c.func.attr if isinstance(c.func, ast.Attribute) else getattr(c.func, "id", "?")
+                                for b in t.body for c in ast.walk(b) if isinstance(c, ast.Call)})
+                for h in t.handlers:
+                    hs.append((",".join(calls), "|".join(names(h.type))))
+                if t.finalbody or t.orelse:
+                    hs.append(("finally/else", "?"))
+        out[fn] = hs
+    want = {"_handle_read": [("recvfrom", "BlockingIOError"), ("unpack_qmi_udp_packet", "QMI_Exception")],
+            "_handle_context_info_request_packet": [], "_handle_kill_request_packet": []}
+    if out != want:
+        raise ValueError(f"exception handlers of the responder changed: {out} (the model mirrors {want})")
+    pt = ast.parse((core.REPO / "qmi/core/udp_responder_packets.py").read_text())
+    un = _find_def(pt, ["unpack_qmi_udp_packet"])
+    raised = sorted({ast.unparse(r.exc.func) if isinstance(r.exc, ast.Call) else ast.unparse(r.exc)
+                     for r in ast.walk(un) if isinstance(r, ast.Raise) and r.exc is not None})
+    if raised != ["QMI_RuntimeException"] or any(isinstance(t, ast.Try) for t in ast.walk(un)):
+        raise ValueError(f"unpack_qmi_udp_packet raises {raised} / has handlers (the model mirrors QMI_RuntimeException only, no handlers)")
+    from qmi.core.exceptions import QMI_Exception, QMI_RuntimeException
+    if not issubclass(QMI_RuntimeException, QMI_Exception) or issubclass(ValueError, QMI_Exception) or issubclass(UnicodeDecodeError, QMI_Exception):
+        raise ValueError("exception hierarchy changed")
+    return {"handled": want, "raised_by_unpack": raised}
+
+
 def read_layout() -> tuple[Layout, dict]:
     import ctypes
     import qmi.core.udp_responder_packets as P
@@ -276,6 +325,9 @@ def addr_index(a) -> str:
         return str(k) if addr_of(k) == tuple(a) else "?"
     except Exception:
         return "?"
+
+
+ESCAPE_CLASSES = ("ValueError", "UnicodeDecodeError")     # theorem escape_classes
 
 
 class _Budget(BaseException):
@@ -505,7 +557,12 @@ def run_session_impl(s: dict):
             sock = FakeDgramSocket()
         try:
             resp = M._UdpResponder(loop, router, sock)
+            dead = False
             for d in s["dgrams"]:
+                if dead:            # os._exit ran: the process is gone, nothing is read any more
+                    outs.append("dead")
+                    trace.append({"sent": [], "exc": None, "killed": False, "tap": None, "undelivered": False, "dead": True})
+                    continue
                 ev.clear()
                 sock.sent.clear()
                 exc = None
@@ -546,6 +603,7 @@ def run_session_impl(s: dict):
                 t = {"sent": sent, "exc": type(exc).__name__ if exc is not None else None,
                      "killed": "killed" in ev, "tap": ev.get("tap"), "undelivered": ev.get("undelivered", False) or ev.get("unread", False)}
                 trace.append(t)
+                dead = t["killed"]
                 if "nopkt" in d:
                     outs.append("no-packet" if (exc is None and not sent and not t["killed"]) else f"unexpected {t}")
                 elif t["undelivered"]:
@@ -585,6 +643,12 @@ def oracle_session(lay: Layout, s: dict, trace) -> tuple | None:
     name_ok = len(nb) <= lay.nameLen and "\0" not in name and workgroup_admitted(wg)
     loop_mode = s.get("mode") == "loop"
     for i, (d, t) in enumerate(zip(s["dgrams"], trace)):
+        if t.get("dead"):
+            continue
+        if t["exc"] is not None and t["exc"] not in ESCAPE_CLASSES:
+            # the argument "junk is ignored" rests on the event loop containing what leaves _handle_read; the model proves
+            # (escape_classes) that only these classes can leave it — anything else is outside what was proved and exercised
+            return (f"contain:unexpected-exception-class-leaves-handle_read:{t['exc']}", f"datagram {d.get('data', '')[:80]}", i)
         if "nopkt" in d:
             if t["sent"] or t["killed"]:
                 return ("nopacket:acted-without-datagram", f"{t}", i)
@@ -1210,6 +1274,14 @@ def sys_sessions(rng, lay: Layout, deep: bool) -> list:
               "tag": "workgroup-too-long"})
     S.append({**base, "wg": "é" * (lay.wgLen // 2) + "a", "dgrams": [dg(o_request(lay, 5, unhx(ts0), b"*", b"*"))], "tag": "workgroup-too-long"})
     S.append({**base, "wg": "ab\0cd", "dgrams": [dg(o_request(lay, 5, unhx(ts0), b"ab*", b"*"))], "tag": "workgroup-nul"})
+    # 8b. everything one bit away from a kill request, and the kill header on datagrams of other sizes: only the ones that
+    #     still are well-formed kill requests (bit in id / timestamp) may kill; after each, an intact request
+    kill = o_kill(lay, 0x0102030405060708, unhx(ts0))
+    for i in range(8 * len(kill)):
+        flipped = bytes(b ^ ((1 << (i % 8)) if i // 8 == j else 0) for j, b in enumerate(kill))
+        S.append({**base, "dgrams": [dg(flipped), dg(good)], "tag": "kill-lookalike"})
+    for n in [0, 1, lay.hdr_size - 1, lay.hdr_size + 1, lay.req_size, lay.resp_size, lay.responderRecvMax, lay.responderRecvMax + lay.hdr_size]:
+        S.append({**base, "dgrams": [dg((kill + bytes(lay.responderRecvMax + lay.hdr_size))[:n]), dg(good)], "tag": "kill-lookalike"})
     # 8. kill request (well-formed: acted upon; malformed: junk), nothing after it
     S.append({**base, "dgrams": [dg(o_kill(lay, 1, unhx(ts0))[:-1]), dg(o_kill(lay, 1, unhx(ts0)) + b"\0"), dg(good), dg(o_kill(lay, 1, unhx(ts0)))], "tag": "kill"})
     return S
@@ -1300,6 +1372,7 @@ class C18(Prop):
     # -- translator --------------------------------------------------------
     def translate(self, ctx: Ctx):
         lay, tables = read_layout()
+        _exception_structure()
         core.write_if_changed(GEN_FILE, render_gen(lay, tables))
         return [GEN_FILE]
 
@@ -1420,7 +1493,7 @@ class C18(Prop):
         for s in sys_sessions(rng, lay, deep=not ctx.quick):
             tag = s.pop("tag")
             self._do_session(lay, res, s, batch, [f"sys:{tag.split('/')[0]}"] * len(s["dgrams"]))
-            if tag in ("truncations", "magic-bits", "kill", "workgroup-too-long", "id-bits"):
+            if tag in ("truncations", "magic-bits", "kill", "workgroup-too-long", "id-bits") or (tag == "kill-lookalike" and len(batch) % 7 == 0):
                 s2 = dict(s, mode="loop")
                 self._do_session(lay, res, s2, batch, ["loop:" + tag] * len(s["dgrams"]))
             if len(batch) >= 200:
